@@ -484,7 +484,7 @@ fn legacy_text(links: &[Link], json: bool) -> Option<String> {
 pub struct C16;
 impl C16 {
     fn gen(g: &mut Gen, _tier: Tier) -> NetCase {
-        let skeleton = gen_corridor(g, &CorridorOpts { max_stages: 5, p_lockout: 0.3, p_branch: 0.3, ..Default::default() });
+        let skeleton = gen_corridor(g, &CorridorOpts { max_stages: 5, p_lockout: 0.3, p_branch: 0.3, p_bypass: 0.25, ..Default::default() });
         let n_links = skeleton.build().links.len() - 1;
         let tp = gen_train_params(g);
         let legacy = g.bool(0.25);
